@@ -51,10 +51,29 @@ func (g *GogoT) Unmarshal(b []byte) error {
 	return nil
 }
 
+// GogoV is a gogo-style custom message of variable size; the empty one has size 0.
+type GogoV struct{ B []byte }
+
+func (g GogoV) Size() int { return len(g.B) }
+func (g GogoV) MarshalTo(b []byte) (int, error) {
+	if len(b) < len(g.B) {
+		return 0, fmt.Errorf("GogoV: short buffer")
+	}
+	return copy(b, g.B), nil
+}
+func (g *GogoV) Unmarshal(b []byte) error {
+	g.B = append([]byte(nil), b...)
+	return nil
+}
+
+// IsCustom reports whether t is one of the message types with their own encoding.
+func IsCustom(t reflect.Type) bool { return t == TMsg || t == TGogo || t == TGogoV || t == TRaw }
+
 var (
-	TMsg  = reflect.TypeOf(MsgT{})
-	TGogo = reflect.TypeOf(GogoT{})
-	TRaw  = reflect.TypeOf(proto.RawMessage(nil))
+	TMsg   = reflect.TypeOf(MsgT{})
+	TGogo  = reflect.TypeOf(GogoT{})
+	TGogoV = reflect.TypeOf(GogoV{})
+	TRaw   = reflect.TypeOf(proto.RawMessage(nil))
 )
 
 type Cfg struct {
@@ -95,7 +114,7 @@ func (g *Gen) scalar() reflect.Type {
 		return reflect.ArrayOf(core.Pick(r, []int{1, 2, 3, 4, 5, 6, 7, 8, 9, 10, 14, 15, 16, 17, 22, 33}), reflect.TypeOf(byte(0)))
 	}
 	if g.Cfg.Custom && !g.Cfg.RefOnly && r.Chance(1, 12) {
-		return core.Pick(r, []reflect.Type{TMsg, TGogo, TRaw})
+		return core.Pick(r, []reflect.Type{TMsg, TGogo, TGogoV, TRaw})
 	}
 	return scalars[r.Intn(len(scalars))]
 }
@@ -364,6 +383,11 @@ func (f *Filler) Fill(v reflect.Value, depth int) {
 	case TGogo:
 		v.Field(0).SetUint(uint64(uint32(r.Uint64B())))
 		v.Field(1).SetUint(uint64(uint32(r.Uint64B())))
+		return
+	case TGogoV:
+		if !r.Chance(1, 3) { // else size 0
+			v.Field(0).SetBytes(r.Bytes(r.Range(1, 20)))
+		}
 		return
 	case TRaw:
 		// a valid message: field 1 varint
